@@ -21,7 +21,13 @@
 // files byte-identical, disabled mode is the identity, an option exempted by a disable rule
 // or set under ModifyPreserveExisting is unchanged, bool/enum/jstype values follow
 // last-override-else-default, removed locations are exactly those of rewritten options (plus
-// their then-empty parents), idempotence.
+// their then-empty parents), idempotence; Modify fails only on malformed source info.
+//
+// Families run after the random cases: sweepfam.go (option locations of every shape), numfam.go
+// (large / confusable path elements: extension numbers around 2^8k, indexes >= 2^8 / 2^16, deep
+// paths), cfgfam.go (every buf.gen.yaml v1 key and v2 rule shape as YAML text through the real
+// reader, judged by an oracle taken from the documentation of the keys, + cfgv1 / cfgv2 lines
+// tying the YAML -> rules translation to the Lean model).
 package main
 
 import (
@@ -1584,6 +1590,35 @@ func runCase(run *hx.Run, caseID string, img *builtImage, cfg bufconfig.Generate
 		}
 	}
 	run.Case(input, status+"\t"+strings.Join(answers, "|"), anyChange || modErr != nil)
+	// Modify may only fail on malformed source info: the location of a rewritten option that is
+	// the first of the list, or a rewritten file option's location not preceded by an [8] location
+	// (compilers never emit either).  Any other error means the sweeper misread a path.
+	if modErr != nil {
+		legit := false
+		for i := range img.files {
+			locs := before[i].GetSourceCodeInfo().GetLocation()
+			fields := walkFields(before[i])
+			for k, l := range locs {
+				if len(l.Path) == 2 && l.Path[0] == 8 {
+					if _, ok := diffs[i].fileOptChanged[l.Path[1]]; ok && (k == 0 || !pathEq(locs[k-1].Path, []int32{8})) {
+						legit = true
+					}
+				}
+				if k == 0 {
+					for fk := range diffs[i].jsChanged {
+						if pathEq(l.Path, cat(fields[fk].path, 8, 6)) {
+							legit = true
+						}
+					}
+				}
+			}
+		}
+		if legit {
+			run.Count("modify:err-on-malformed-source-info")
+		} else {
+			fail("modify-error-on-well-formed-source-info", fmt.Sprintf("bufimagemodify.Modify failed (%v) although every rewritten option's location has its preceding parent location", modErr))
+		}
+	}
 	if anyChange {
 		run.Count("case:changed")
 	} else {
@@ -2141,4 +2176,6 @@ func main() {
 		runCase(run, strconv.Itoa(i), img, cfg, preserve, cfgKind)
 	}
 	runSweepFamily(run, root.Fork(1<<41))
+	runNumberFamily(run, root.Fork(1<<42))
+	runConfigKeyFamily(run, root.Fork(1<<43))
 }
